@@ -445,6 +445,11 @@ func (r *Reader) readReflect(v interface{}) error {
 			return err
 		}
 
+		// 线上每个元素至少占一个字节：长度超过剩余字节数说明数据损坏，拒绝以避免按对端给出的长度分配内存
+		if uint64(length) > uint64(r.RemainingSize()) {
+			return fmt.Errorf("slice length %d exceeds remaining %d bytes: %w", length, r.RemainingSize(), io.ErrUnexpectedEOF)
+		}
+
 		// 创建切片并读取每个元素
 		slice := reflect.MakeSlice(rv.Type(), int(length), int(length))
 		for i := 0; i < int(length); i++ {
